@@ -102,6 +102,51 @@ def spelling_decls(spells):
     return decls
 
 
+def round_decimal(ty, text):
+    """bits of the float of type ty that the decimal literal `text` denotes (round to nearest, ties to even), exact."""
+    from fractions import Fraction
+    from .values import f_from_bits
+    x = Fraction(text)
+    c = f_bits(ty, float(text))            # via f64: at most one ulp off for f32
+    best = None
+    for cand in (c - 1, c, c + 1):
+        if cand < 0:
+            continue
+        v = f_from_bits(ty, cand)
+        if v != v or v in (float("inf"), float("-inf")):
+            continue
+        dist = abs(Fraction(v) - x)
+        key = (dist, cand & 1)
+        if best is None or key < best[0]:
+            best = (key, cand)
+    return best[1]
+
+
+def float_literal_decls():
+    """C02: long decimal literals as float bounds, at, just below and just above the midpoint between two adjacent
+    values of the type: the bound enforced must be the value the literal denotes in THAT type (a literal that is
+    parsed in a wider type and narrowed afterwards rounds twice)."""
+    from .props_obs import midpoint_texts
+    decls = []
+    n = 0
+    for ty in ("f32", "f64"):
+        for x in (1.0, 16777216.0, 0.1, 1e10, 3.0):
+            base = f_bits(ty, x)
+            for text in midpoint_texts(ty, base) + midpoint_texts(ty, base - 1):
+                if text.startswith("-") or len(text) > 60:
+                    continue
+                b = round_decimal(ty, text)
+                for kind in ("less_or_equal", "greater"):
+                    n += 1
+                    src = "\n#[nutype(\n    validate(%s = %s),\n    derive(Debug, Clone, Copy, PartialEq)\n)]\npub struct Nt(%s);\n" % (kind, text, ty)
+                    decls.append({"id": "fl%03d" % n, "fam": "float", "ty": ty, "src_ty": ty, "san": [], "vmode": "std",
+                                  "val": [{"k": kind, "b": b, "fn": "", "p": [], "sp": "lit"}],
+                                  "traits": ["Debug", "Clone", "Copy", "PartialEq"], "dflt": [],
+                                  "decl_override": src, "cells": [b - 2, b - 1, b, b + 1, b + 2], "minimal_driver": True,
+                                  "spelling": "float_literal", "spelling_text": text, "model_accepts": True, "tag": "float_literal:" + ty})
+    return decls
+
+
 def layout_decls(rows):
     """slice R of MC_Decl (repeated blocks, block orders) -> value-layer declarations of the DENOTED guard."""
     decls = []
@@ -270,7 +315,7 @@ def check_C02():
         raise ToolError("MC_Bound emitted no spellings")
     from .props_decl import mc_decl_rows
     rd, rows = mc_decl_rows()
-    decls = spelling_decls(spells) + layout_decls(rows) + closure_form_decls() + combo_decls()
+    decls = spelling_decls(spells) + layout_decls(rows) + closure_form_decls() + combo_decls() + float_literal_decls()
 
     def rows_of(d):
         ep = "try_new" if d["vmode"] != "none" else "new"
